@@ -300,6 +300,10 @@ def check_form(spec, res, nenv, seed):
                             pass
                         finally:
                             ev.BLIND[0] = False
+                    if cls == 'other' and res.get('cse'):
+                        pb = check_cse_occurrences(hdr, res, seed, collections.Counter())
+                        if pb and pb[0].endswith('operand-order'):
+                            cls = 'operand-order'
                     sig = 'cse-merged-distinct:' + cls
                 k = next(i for i, (a, b) in enumerate(zip(prev, val)) if a != b)
                 j = next(i for i, (a, b) in enumerate(zip(prev[k], val[k])) if a != b) if len(prev[k]) == len(val[k]) else 0
@@ -325,12 +329,62 @@ def check_form(spec, res, nenv, seed):
         stats['schedules-checked'] += 1
         if bad:
             problems.append(('impl:schedule:def-before-use', bad, {'schedule': res['schedule']}))
+    # merge-only-if-identical, observed on the hashes extract_common_expressions really used: all
+    # occurrences replaced by one variable must have the same exact value (and the variable's value)
+    if res.get('cse') and inexact_from is None:
+        pb = check_cse_occurrences(hdr, res, seed, stats)
+        if pb:
+            problems.append(pb)
     # vector component substitution: entry (i,j) is the form with u = phi e_j, v = psi e_i
     for rec in res.get('rules', {}).get('vec', []):
         pb = check_vec_subst(hdr, rec, seed, stats)
         if pb:
             problems.append(pb)
     return problems, stats, tie
+
+
+def check_cse_occurrences(hdr, res, seed, stats):
+    forest = next((f for (l, f) in res['snaps'] if l == 'cse'), None)
+    if forest is None:
+        return None
+    groups = collections.OrderedDict()
+    for varref, occ in res['cse']:
+        if varref[0] == 'VR':
+            groups.setdefault(varref[1], [varref]).append(occ)
+    for s in range(2):
+        env = ev.Env(hdr, '%s-cse-%d' % (seed, s))
+        fo = ev.Forest(forest, env)
+        for name, lst in groups.items():
+            try:
+                vals = [fo.ev(x) for x in lst]
+            except (ev.Unsupported, ev.Undefined):
+                stats['cse-occurrence-skipped'] += 1
+                continue
+            except ev.Malformed as ex:
+                return ('impl:malformed-forest:cse', 'after CSE the forest is not well formed: %s' % ex, {'pass': 'cse'})
+            stats['cse-occurrences-checked'] += len(lst) - 1
+            for occ, v in zip(lst[1:], vals[1:]):
+                if v != vals[0] or v != vals[1]:
+                    k2 = next((k for k in range(1, len(lst)) if vals[k] != v), 0)
+                    other, vo = lst[k2], vals[k2]
+                    cls = 'operand-order' if _unordered(occ) == _unordered(other) or any(
+                        _unordered(occ) == _unordered(o2) for o2 in lst[1:] if o2 is not occ) else 'other'
+                    return ('impl:cse-merged-unequal:' + cls,
+                            'extract_common_expressions replaced two occurrences by the variable %s although their exact '
+                            'values differ (%s vs %s): %s  AND  %s' % (name, v, vo, to_sexp(occ)[:400], to_sexp(other)[:400]),
+                            {'pass': 'cse', 'variable': name, 'occurrence_a': to_sexp(occ)[:3000],
+                             'occurrence_b': to_sexp(other)[:3000], 'env_seed': env.seed})
+    return None
+
+
+def _unordered(d):
+    """the tree with the operands of every binary node sorted (classification only)"""
+    if not isinstance(d, list):
+        return d
+    if d and d[0] == 'O':
+        a, b = _unordered(d[2]), _unordered(d[3])
+        return ('O', d[1]) + tuple(sorted([a, b], key=repr))
+    return tuple(_unordered(x) for x in d)
 
 
 def check_vec_subst(hdr, rec, seed, stats):
